@@ -199,11 +199,16 @@ pub fn run(ctx: &mut Ctx) {
     let quick = ctx.tier == Tier::Quick;
 
     // ---- reader faults ----
-    let files: Vec<(String, Vec<Vec<u8>>)> = bundled().iter().map(|b| (b.name.clone(), ENCS.iter().map(|e| encode_text(&b.text, *e)).collect())).collect();
+    let mut files: Vec<(String, Vec<Vec<u8>>)> = bundled().iter().map(|b| (b.name.clone(), ENCS.iter().map(|e| encode_text(&b.text, *e)).collect())).collect();
+    // a generated file whose lines contain characters with a 0x0A / 0x0D byte inside a UTF-16 unit (U+010A, U+4E0A,
+    // U+0A15, U+0D00, ...): in UTF-16 the reader meets line-feed look-alikes in the middle of lines, so a fault can
+    // fall between such a byte and the real end of the line
+    let special = "osu file format v14\n\n[General]\nAudioFilename: a\u{10a}bcdefgh.mp3\nMode: 1\n\n[Metadata]\nTitle:a\u{10a}bcdefgh\nTitleUnicode:\u{4e0a}\u{a15}\u{a3e} \u{100}\u{d00}\u{a15} tail\nArtist:x\u{200a}y\u{300a}z\u{ff0a}w\nCreator:me\nVersion:\u{10a}\n\n[Difficulty]\nCircleSize:4\n\n[Events]\n0,0,\"b\u{10a}g.jpg\",0,0\n\n[TimingPoints]\n0,500,4,1,0,100,1,0\n\n[HitObjects]\n100,100,1000,1,0,0:0:0:0:\u{10a}.wav\n200,100,2000,2,0,L|300:100,1,100\n";
+    files.push(("generated: characters with 0x0A / 0x0D bytes inside UTF-16 units".to_string(), ENCS.iter().map(|e| encode_text(special, *e)).collect()));
     let mut plan: Vec<ReadFault> = vec![];
     for (fi, (_, encs)) in files.iter().enumerate() {
         for (ei, bytes) in encs.iter().enumerate() {
-            let small = bundled()[fi].bytes.len() <= 4096;
+            let small = bundled().get(fi).map_or(true, |b| b.bytes.len() <= 4096);
             // every offset of the files <= 4 KiB in all four encodings; sampled offsets (128 quick / 2048 thorough) of the larger ones
             let exhaustive = small;
             let offs = offsets_for(bytes.len(), exhaustive, if quick { 128 } else { 2048 });
@@ -321,7 +326,7 @@ pub fn run(ctx: &mut Ctx) {
     let cases = ctx.tier.pick(60_000u64, 600_000u64);
     ctx.pbt("c09-interrupted", cases, 64, |t, st| {
         // small files mostly
-        let small: Vec<usize> = (0..files.len()).filter(|i| bundled()[*i].bytes.len() <= 8192).collect();
+        let small: Vec<usize> = (0..files.len()).filter(|i| bundled().get(*i).map_or(true, |b| b.bytes.len() <= 8192)).collect();
         let fi = if t.chance(5) { t.below(files.len()) } else { small[t.below(small.len())] };
         let ei = t.below(4);
         st.eval();
